@@ -4,8 +4,10 @@ package main
 
 import (
 	"verif/checks/c17"
+	"verif/checks/c20"
 )
 
 func init() {
 	checks["C17"] = check{"exploration", c17.Run}
+	checks["C20"] = check{"model_checking", c20.Run}
 }
